@@ -6,11 +6,14 @@ VARIABLES tid, l, st, verdict
 vars == <<tid, l, st, verdict>>
 Ev == Traces[tid].events
 Sc == Traces[tid].scenario
-St0 == [parked |-> {}, rets |-> 0]
+\* requests waiting for their answer: a BAG of operation names (one operation may have several requests in flight at once)
+RemoveOne(seq, x) == LET i == CHOOSE k \in DOMAIN seq : seq[k] = x IN SubSeq(seq, 1, i - 1) \o SubSeq(seq, i + 1, Len(seq))
+InBag(seq, x) == \E k \in DOMAIN seq : seq[k] = x
+St0 == [parked |-> <<>>, rets |-> 0]
 On(s, e) ==
   CASE e.e = "start" -> [st |-> s, cl |-> <<>>]
-    [] e.e = "park" -> [st |-> [s EXCEPT !.parked = @ \cup {e.op}], cl |-> <<>>]
-    [] e.e = "release" -> [st |-> [s EXCEPT !.parked = @ \ {e.op}], cl |-> << <<"MACHINERY_release_without_park", e.op \in s.parked>> >>]
+    [] e.e = "park" -> [st |-> [s EXCEPT !.parked = Append(@, e.op)], cl |-> <<>>]
+    [] e.e = "release" -> [st |-> [s EXCEPT !.parked = IF InBag(@, e.op) THEN RemoveOne(@, e.op) ELSE @], cl |-> << <<"MACHINERY_release_without_park", InBag(s.parked, e.op)>> >>]
     [] e.e = "ret" ->
          LET solo == Sc.solo[e.op] IN
          [st |-> [s EXCEPT !.rets = @ + 1],
